@@ -34,8 +34,14 @@
 (*    workbooks use it); names inside headers (ordinary headers, element   *)
 (*    symbols, list/dict names and keys) contain no special token of the   *)
 (*    reader and are not keys that special columns produce;                *)
-(*  - a sheet has formula or element columns, not both; at most one        *)
-(*    formula / statmech_model / <mode>_model column;                      *)
+(*  - a sheet may have a formula column AND element.X columns, in either   *)
+(*    order.  The composition of a row is then what the documented setters *)
+(*    give when the columns are taken left to right: the formula cell      *)
+(*    assigns the parsed composition (replacing element cells to its       *)
+(*    left), element.X cells to its right are set on top of it.  Rows      *)
+(*    repeating a formula (same text, or same text padded differently) are *)
+(*    in the quantifier.  At most one formula / statmech_model /           *)
+(*    <mode>_model column;                                                 *)
 (*  - model cells hold names of classes of pmutt.statmech.<mode> (the      *)
 (*    module each setter's message points to) or "emptymode" in any case;  *)
 (*    statmech_model cells hold a preset name in any case;                 *)
@@ -248,10 +254,16 @@ ExpectedRow(cl, row) ==
        Of(k) == {c \in ne : cl[c].cls = k}
        Vals(S) == LET ss == SortedSeq(S) IN [i \in 1..Len(ss) |-> Scalar(row[ss[i]])]
        ord == {<<cl[c].a, Scalar(row[c])>> : c \in Of("ordinary")}
+       \* composition: the columns are taken left to right; a formula cell ASSIGNS the parsed
+       \* composition (set_formula: "will assign to output_structure['elements']", so element
+       \* cells to its left are replaced), an element.X cell to its right is set on top of it
+       fcol == IF Of("formula") = {} THEN 0 ELSE CHOOSE c \in Of("formula") : TRUE
+       base == IF fcol = 0 THEN {} ELSE FormulaPairs(Trim(row[fcol].v))
+       ecols == {c \in Of("element") : c > fcol}
        elem == IF Of("element") \cup Of("formula") = {} THEN {}
                ELSE {<<T_elements,
-                       DictV({<<cl[c].a, Scalar(row[c])>> : c \in Of("element")}
-                             \cup UNION {FormulaPairs(Trim(row[c].v)) : c \in Of("formula")})>>}
+                       DictV({p \in base : ~\E c \in ecols : cl[c].a = p[1]}
+                             \cup {<<cl[c].a, Scalar(row[c])>> : c \in ecols})>>}
        vib == IF Of("vib") = {} THEN {} ELSE {<<T_vib_wavenumbers, ListV(Vals(Of("vib")))>>}
        rot == IF Of("rot") = {} THEN {} ELSE {<<T_rot_temperatures, ListV(Vals(Of("rot")))>>}
        lists == {<<nm, ListV(Vals({c \in Of("list") : cl[c].a = nm}))>> :
@@ -300,7 +312,6 @@ SheetInQuantifier(sheet) ==
       /\ ordK \cap (listK \cup dictK \cup ReservedKeys) = {}
       /\ listK \cap dictK = {} /\ (listK \cup dictK) \cap (ReservedKeys \cup {T_n_degrees}) = {}
       /\ Cnt("formula") <= 1 /\ Cnt("statmech") <= 1
-      /\ ~(Cnt("formula") > 0 /\ Cnt("element") > 0)
       /\ \A r \in 1..Len(sheet.rows) :
             /\ Len(sheet.rows[r]) = n
             /\ \A c \in 1..n : CellSuits(cl[c], sheet.rows[r][c])
